@@ -42,7 +42,7 @@ def scenario(args):
         if c["api"] == "resend":
             ev.append(lp.call("resend", send_only=c.get("send_only", False), fates=c.get("fates")))
         elif c["api"] == "sendlist":
-            bufs = [payload(rng.randrange(1, 33), 10 * k + i, rng) for i in range(c["n"])]
+            bufs = [payload(n_, 10 * k + i, rng) for i, n_ in enumerate(rng.sample(range(1, 33), c["n"]))]   # distinct lengths
             ev.append(lp.call("send", bufs, fr=c.get("fr", 0), send_only=c.get("send_only", False), fates=c.get("fates")))
         else:
             buf = payload(c.get("len", 5), k, rng)
